@@ -260,6 +260,13 @@ class MetadorNode(wrapt.ObjectProxy):
         if self.acl[NodeAcl.local_only]:
             # raise exception (illegal non-local access)
             self._guard_acl(NodeAcl.local_only, "parent")
+        if self.acl[NodeAcl.read_only] or self.acl[NodeAcl.skel_only]:
+            # hand out the root node only with the same restrictions
+            return MetadorGroup(
+                self._self_container,
+                self._self_container.__wrapped__["/"],
+                **self._child_node_kwargs(),
+            )
         return self._self_container
 
 
